@@ -331,6 +331,49 @@ func (ft *funcTrans) backEdge(from *ssa.BasicBlock, li *loopInfo, edgeCond strin
 		o.Focus = fmt.Sprintf("inv:%d:%d", li.ordinal, k+1)
 		o.FocusSet = relatedInvariants(li, k)
 	}
+	if len(li.lc.OnSkip) > 0 {
+		// an iteration that wrote nothing the loop can write: every heap of the loop's modification
+		// set is what it was at the loop head and nothing was allocated (iterations usually end in one
+		// common block, so this is a condition, not a syntactic fact)
+		var same []string
+		add := func(h string) {
+			if _, ok := w.heapSorts[h]; !ok {
+				return
+			}
+			a, b := w.heapSym(ft.curSt, h), w.heapSym(li.hdrState, h)
+			if a != b {
+				same = append(same, fmt.Sprintf("(= %s %s)", a, b))
+			}
+		}
+		if li.modAll {
+			for _, h := range ft.allHeaps() {
+				add(h)
+			}
+		} else {
+			for _, h := range sortedKeys(li.modHeaps) {
+				add(h)
+			}
+		}
+		if ft.curSt.alloc != li.hdrState.alloc {
+			same = append(same, fmt.Sprintf("(= %s %s)", ft.curSt.alloc, li.hdrState.alloc))
+		}
+		cond := "true"
+		if len(same) > 0 {
+			cond = "(and " + strings.Join(same, " ") + ")"
+		}
+		// names of the loop body are in scope here (unlike in invariants)
+		env2 := ft.namesAt(ft.cur)
+		for k2, v2 := range env {
+			if _, ok := env2[k2]; !ok {
+				env2[k2] = v2
+			}
+		}
+		ec2 := &evalCtx{w: w, pkg: ft.pkgTypes(), env: env2, st: ft.curSt, old: ft.entry, lets: ft.lets(), cells: ft.loopCells(li, env2), ft: ft}
+		for k, c := range li.lc.OnSkip {
+			t := ec2.evalBool(c.E)
+			ft.obligation("onskip", fmt.Sprintf("loop%d.onskip%d@b%d", li.ordinal, k+1, from.Index), c.Src, fmt.Sprintf("(=> %s %s)", cond, t.S))
+		}
+	}
 	if len(li.lc.DecList) > 0 {
 		// lexicographic decrease: some component strictly decreases (and was >= 0), all earlier ones are unchanged
 		var alts []string
